@@ -158,7 +158,7 @@ def invariants(m):
         out.append('graph has a cycle')
     for u, v in g.edges:
         if 'attr_dict' not in g.nodes[u] or 'attr_dict' not in g.nodes[v]:
-            out.append('edge endpoint without state: %s->%s' % (u, v))
+            out.append('dangling edge endpoint: %s->%s' % (u, v))
     for n in g.nodes:
         if n.startswith('_') and g.degree(n) == 0:
             out.append('orphan private constant %s' % n)
@@ -355,7 +355,8 @@ def judge(seedkind, hist, workdir):
                                                                   ref=w.r.parameter_names())), w
     inv = invariants(w.m)
     if inv:
-        return ('C14:invariant:' + inv[0].split(' %')[0].replace(' ', '-')[:40] + ':after-' + last, dict(what, problems=inv)), w
+        cls = '-'.join(inv[0].split(' ')[:3])      # class of the broken invariant without node names
+        return ('C14:invariant:' + cls + ':after-' + last, dict(what, problems=inv)), w
     # copy / load events
     for ev in w.events:
         if last in ('copy', 'saveload') and ev[3] is w.m:
